@@ -301,10 +301,8 @@ package node
 //@   modifies Lbal, Lsupply, Lrel, Lexec, LtoAmt, Lrefund, Lhist, Lhold, Lrated, Lrate, LbankPresent, LbankAmt, LbankUsed, LbankReq, d.LastAveragesData, d.LastAverages, d.LastAveragesHeight
 //@   let devDue = height >= config.V20DevRewardsHeightActivation && height % 144 == 0
 //@   // no block is reported as applied with an ignored failure: the ledger invariants hold whenever nil is returned
-//@   ensures @never_negative{C10} err == nil ==> balNonNeg(Lbal)
-//@   ensures @status{C10} err == nil ==> statusInv(Lexec, Lrel, Lhist)
-//@   ensures @never_negative_when_no_dev_payout_due err == nil && !devDue ==> balNonNeg(Lbal)
-//@   ensures @status_when_no_dev_payout_due err == nil && !devDue ==> statusInv(Lexec, Lrel, Lhist)
+//@   ensures @never_negative err == nil ==> balNonNeg(Lbal)
+//@   ensures @status err == nil ==> statusInv(Lexec, Lrel, Lhist)
 //@   ensures @held_have_history err == nil ==> holdInv(Lhold, Lhist)
 //@   // gating of the scheduled steps (each at most once, at exactly its heights)
 //@   ensures @mint_iff err == nil ==> ((calls("MintTokensForBalance") == old(calls("MintTokensForBalance")) + 1) <==> height == config.V204EnhanceActivation) && calls("MintTokensForBalance") <= old(calls("MintTokensForBalance")) + 1
